@@ -22,7 +22,7 @@ type c07ctx struct {
 }
 
 func newC07(o *Opts, res *Result) *c07ctx { return &c07ctx{o: o, res: res, drv2: StartDriver()} }
-func (c *c07ctx) finish()               { c.drv2.Close() }
+func (c *c07ctx) finish()                 { c.drv2.Close() }
 
 func (s *storeRun) captureStart() {
 	if s.c07 == nil {
@@ -94,13 +94,14 @@ func (s *storeRun) afterMutation(op Op, prev *specDoc) {
 			os.Remove(path)
 			continue
 		}
+		modelOK := true
 		if ms, rs := c.drv2.Send("st"), rc.St(); ms != rs {
+			// the tie is broken here; keep going on the implementation alone to look for a failing input
 			s.tie("recovered state ("+where+")", ms, rs)
-			rc.Close()
-			os.Remove(path)
-			return
+			modelOK = false
+		} else {
+			s.res.TracesValidated++
 		}
-		s.res.TracesValidated++
 		// others intact, affected old-or-new
 		_, ids := rc.IDs()
 		have := map[uint64]bool{}
@@ -149,14 +150,14 @@ func (s *storeRun) afterMutation(op Op, prev *specDoc) {
 		bigMeta := genMeta(int64(c.n), 5000)
 		cm := c.drv2.Send(fmt.Sprintf("add %d %s %s", bigID, codesStr(rc.Codes(vec)), hexW(bigMeta)))
 		cr := rc.Add(bigID, vec, bigMeta)
-		if cm != cr {
+		if modelOK && cm != cr {
 			s.tie("continuation add ("+where+")", cm, cr)
 		}
 		removed := false
 		if d != nil {
 			cm = c.drv2.Send(fmt.Sprintf("del %d", op.ID))
 			cr = rc.Del(op.ID)
-			if cm != cr {
+			if modelOK && cm != cr {
 				s.tie("continuation remove ("+where+")", cm, cr)
 			}
 			removed = cr == "ok"
@@ -165,10 +166,10 @@ func (s *storeRun) afterMutation(op Op, prev *specDoc) {
 		rc.Close()
 		r = rc.New(1, 0, 0, 0)
 		m2 = c.drv2.SendNew(1, 0, 0, 0, path)
-		if strings.Fields(m2)[0] != r {
+		if modelOK && strings.Fields(m2)[0] != r {
 			s.tie("second reopen ("+where+")", m2, r)
 		} else if r == "ok" {
-			if ms, rs := c.drv2.Send("st"), rc.St(); ms != rs {
+			if ms, rs := c.drv2.Send("st"), rc.St(); modelOK && ms != rs {
 				s.tie("state after continuation and reopen ("+where+")", ms, rs)
 			}
 			if _, d2 := rc.Get(bigID); d2 == nil || !bytes.Equal(d2.Metadata, bigMeta) {
